@@ -36,9 +36,11 @@ def main():
         dst = dst.replace("/repo//", "/repo/")
     run_cmd = None
     if run:
+        import re
         run_cmd = run.replace("/tmp/wt_%s" % meta["property"], "/repo")
-        if "cd " not in run_cmd:
-            run_cmd = "cd /repo && " + run_cmd
+        run_cmd = re.sub(r"^\s*cd\s+\S+\s*&&\s*", "", run_cmd)
+        run_cmd = re.sub(r"^.*?(go test)", r"\1", run_cmd, count=1)
+        run_cmd = "cd /repo && " + run_cmd
     try:
         if dst and demo_src:
             shutil.copy(demo_src, dst)
@@ -72,5 +74,22 @@ def main():
         if dst and os.path.exists(dst):
             os.remove(dst)
     print(json.dumps(res, indent=1))
+    if "--keep" in sys.argv:
+        name = sys.argv[sys.argv.index("--keep") + 1]
+        out = "/verif/seeded/" + name
+        os.makedirs(out, exist_ok=True)
+        shutil.copy(d + "/patch.diff", out + "/patch.diff")
+        if demo_src:
+            shutil.copy(demo_src, out + "/demo_test.go")
+        meta["confirmed_by_framework_author"] = {
+            "demo_passes_on_unchanged_tree": res.get("demo_passes_clean"),
+            "demo_fails_with_change": res.get("demo_fails_mutant"),
+            "existing_suite_passes_with_change": res.get("suite_passes_mutant"),
+            "check_run": "./check.sh %s %s" % (prop, tier),
+            "check_detects": res.get("detected"),
+            "violation_keys": res.get("keys"),
+            "how": "seedtest.py: git -C /repo apply patch.diff; go test ./...; demo; check; git -C /repo checkout -- .",
+        }
+        json.dump(meta, open(out + "/meta.json", "w"), indent=1)
 
 main()
